@@ -107,7 +107,7 @@ fn child_body(rng: &mut Rng, breadth: Word, tag: &mut String) -> Vec<Op> {
     let mut v = Vec::new();
     let n_parts = 1 + rng.usize(3);
     for _ in 0..n_parts {
-        match rng.below(18) {
+        match rng.below(20) {
             13 => {
                 // finish the innermost inherited loop frame, then look at the enclosing one
                 tag.push_str("end-inherited-loop,");
@@ -179,7 +179,13 @@ fn child_body(rng: &mut Rng, breadth: Word, tag: &mut String) -> Vec<Op> {
             }
             16 | 17 => {
                 tag.push_str("silent,");
-                v.extend([DUP(), POP()]);
+                v.extend([POP(), PUSH(0)]);
+            }
+            18 | 19 => {
+                // record the word just below the index (the parent's top word) in own memory and
+                // leave the index in its place: every child must find the parent's word there
+                tag.push_str("swap-store,");
+                v.extend([PUSH(1), ALOC(), POP(), SWAP(), PUSH(0), ALOC(), PUSH(1), SUB(), STO()]);
             }
             10 => {
                 tag.push_str("pex,");
@@ -256,9 +262,18 @@ pub fn gen_forkjoin(rng: &mut Rng, light: bool) -> VmCase {
     }
     ops.push(PUSH(breadth));
     ops.push(COM());
-    let body = if two_computes && rng.chance(1, 2) {
+    let stack_full = tag.contains("parent-stack-409");
+    let body = if stack_full && rng.chance(3, 4) {
+        // only bodies that never need a word above the index can succeed here
+        tag.push_str("stack-neutral,");
+        match rng.below(3) {
+            0 => vec![],
+            1 => vec![POP(), PUSH(7)],
+            _ => vec![POP()],
+        }
+    } else if two_computes && rng.chance(1, 2) {
         tag.push_str("silent,");
-        vec![DUP(), POP()]
+        vec![POP(), PUSH(0)]
     } else {
         child_body(rng, breadth, &mut tag)
     };
@@ -889,9 +904,14 @@ fn eval_forkjoin(ev: &mut VmEval, case: &VmCase, spec: &SchedSpec, frames: bool)
     if frames && o.before.len() < 6000 && m.forks.len() <= 8 {
         let ok = matches!(o.result, VmResult::Ok { .. });
         let mut expected: Vec<(usize, Vec<Word>, Vec<Word>)> = Vec::new();
+        let n_ops = case.ops().len();
         for f in &m.forks {
             if f.breadth > 256 {
                 return;
+            }
+            if f.pc + 1 >= n_ops {
+                // the Compute is the last operation: its children execute nothing at all
+                continue;
             }
             for i in 0..f.breadth {
                 let mut st = f.parent_stack.clone();
